@@ -21,7 +21,7 @@ from harness.common import REPO, CoqFailure, coq_list, coqc_many, parse_nat_list
 PROP = 'theories/Props/C07.v'
 HEADER = 'From Coq Require Import List Bool Arith.\nFrom BT Require Import C07.Fwd C07.Corr.\nImport ListNotations.\n'
 SHAPES = ['K', 'List[K]', 'Optional[K]', 'Union[K, int]', 'Dict[str, K]', 'Tuple[K, ...]', 'Tuple[int, K]', 'List[Optional[K]]', 'type[K]']
-EARLY = ('global_early', 'local_early', 'class_attr')
+EARLY = ('sibling_attr_leak', 'global_early', 'local_early', 'class_attr', 'attr_shadows_global', 'outer_attr_hidden', 'local_shadows_global')
 LEAVES_NONE = [('unrelated', 3), ('int', 5), ('none', 6)]
 LEAVES_K = [('instance', 1), ('subclass_instance', 2), ('unrelated', 3), ('same_name_unrelated', 4), ('int', 5), ('none', 6)]
 OBS = {'ok': 0, 'violation': 1, 'fwdref': 2}
@@ -41,18 +41,24 @@ def all_specs():
             for order in (['call_define_call', 'define_call'] if target == 'global_late' else ['-']):
                 out.append({'placement': 'module', 'depth': 0, 'shape': shape, 'target': target, 'order': order, 'spellings': sp(target)})
         for depth in (1, 2, 3):
-            for target in ('local_early', 'local_late', 'global_early', 'global_late', 'never'):
+            for target in ('local_early', 'local_late', 'global_early', 'global_late', 'never', 'local_shadows_global'):
                 orders = ['call_define_call', 'define_call', 'returned_only'] if target == 'local_late' else \
                     ['call_define_call', 'define_call'] if target == 'global_late' else ['-']
                 for order in orders:
                     out.append({'placement': 'closure', 'depth': depth, 'shape': shape, 'target': target, 'order': order, 'spellings': sp(target)})
-            for target in ('class_attr', 'self_class', 'root_class', 'global_early', 'global_late', 'never'):
+            for target in ('class_attr', 'self_class', 'root_class', 'global_early', 'global_late', 'never', 'attr_shadows_global', 'outer_attr_hidden'):
                 for decor in ('function', 'class'):
+                    if target == 'outer_attr_hidden' and depth < 2:
+                        continue
                     if decor == 'function' and target == 'self_class' and depth >= 2:
                         continue      # a nested class's own name is no module global: only class decoration knows the class
                     for order in (['call_define_call', 'define_call'] if target == 'global_late' else ['-']):
                         out.append({'placement': 'method', 'depth': depth, 'shape': shape, 'target': target, 'order': order, 'decor': decor,
                                     'spellings': sp(target)})
+        for depth in (1, 2):
+            for decor in ('function', 'class'):
+                out.append({'placement': 'method_in_function', 'depth': depth, 'shape': shape, 'target': 'sibling_attr_leak', 'order': '-',
+                            'decor': decor, 'spellings': ['evaluated', 'quoted', 'quoted_inner', 'postponed']})
     return out
 
 
@@ -78,6 +84,9 @@ def model_case(spec):
         if tg == 'local_early':
             pl0 = [1]
             ev = calls(True) + [('return',)] + calls(True)
+        elif tg == 'local_shadows_global':
+            g0, pl0 = [7], [1]
+            ev = calls(True) + [('return',)] + calls(True)
         elif tg == 'local_late':
             ev = (calls(False) if order == 'call_define_call' else []) + [('deflocal', 1)] + \
                 (calls(True) if order != 'returned_only' else []) + [('return',)] + calls(True)
@@ -88,6 +97,10 @@ def model_case(spec):
             ev = [('return',)] + (calls(False) if order == 'call_define_call' else []) + [('defglobal', 1)] + calls(True)
         else:
             ev = calls(False) + [('return',)] + calls(False)
+    elif pl == 'method_in_function':
+        # the classes live in a function: its frame is found either way; the global K is what the name means
+        nested, alive, g0 = True, True, [1]
+        ev = calls(True) + [('return',)] + calls(True)
     else:
         by_class = spec['decor'] == 'class'
         # per-method decoration happens inside the class body (a frame that is gone by the time of the calls);
@@ -99,6 +112,16 @@ def model_case(spec):
                 attrs = [1]
             else:
                 pl0 = [1]
+            ev = pre + calls(True)
+        elif tg == 'attr_shadows_global':
+            g0 = [7]
+            if by_class:
+                attrs = [1]
+            else:
+                pl0 = [1]
+            ev = pre + calls(True)
+        elif tg == 'outer_attr_hidden':
+            g0 = [1]
             ev = pre + calls(True)
         elif tg in ('self_class', 'root_class'):
             if by_class:
@@ -161,7 +184,7 @@ def run(ctx):
                 'class} x {K a module global / a local of the enclosing function / a class attribute / the class itself / the root class / '
                 'defined nowhere} x {defined before decoration; after it; after a first call; never; enclosing function running / returned} '
                 'x {evaluated (when Python can), quoted, name-only quoted, postponed}; each probe calls with 6 (3 while K is undefined) '
-                'objects wrapped to the shape; quick = a seeded sample of 260 of the 621 program families, thorough = all; '
+                'objects wrapped to the shape; quick = a seeded sample of 300 of the program families (count in the evidence file), thorough = all; '
                 'non-trivial = K not bound at decoration, or placement not module; distinct = distinct (family, spelling)')
     ctx.assumptions += ['the own name of a class nested inside another class, used by a method decorated individually (not through the class), '
                         'is outside the generator: no module global of that name ever exists, and Python itself could not evaluate it',
@@ -182,7 +205,13 @@ def run(ctx):
     specs = all_specs()
     ctx.extra['program_families'] = len(specs)
     if ctx.tier == 'quick':
-        specs = ctx.rng.sample(specs, 260)
+        specs = ctx.rng.sample(specs, 300)
+    cdir = os.path.join(os.path.dirname(os.path.dirname(os.path.dirname(os.path.abspath(__file__)))), 'corpus', 'C07')
+    if os.path.isdir(cdir):                      # minimised past failures run first
+        for fn in sorted(os.listdir(cdir)):
+            with open(os.path.join(cdir, fn)) as f:
+                specs.insert(0, json.load(f))
+    specs = [e['witness'] for e in ctx.known if e['status'] == 'known' and isinstance(e.get('witness'), dict)] + specs
     rows, index = [], []
     for lo in range(0, len(specs), 130):
         part = specs[lo:lo + 130]
